@@ -23,6 +23,16 @@ OPS = [
     ("del-push-bounds", r"^\s*[a-z_.]*push_bounds[a-z_]*\([^;\n]*\);\n", ""),
     ("del-question", r"\)\?;", ");"),
     ("ge-gt", r" != 1\b", " > 1"), ("rev-drop", r"\.rev\(\)", ""),
+    # second generation
+    ("hole-this-other", r"#this\b", "#other"), ("hole-other-this", r"#other\b", "#this"), ("hole-lhs-rhs", r"#lhs\b", "#rhs"), ("hole-rhs-lhs", r"#rhs\b", "#lhs"),
+    ("self-rhs", r"\bself\.#", "rhs.#"), ("equal-less", r"Ordering::Equal\b", "Ordering::Less"),
+    ("use-bounds-true", r"\bif use_bounds\b", "if true"), ("and-field-used", r" && field_used\b", ""), ("and-use-helper", r" && use_helper\b", ""),
+    ("del-continue", r"^\s*continue;\n", ""), ("is-empty-neg", r"(?<!!)\b([a-z_]+)\.is_empty\(\)", r"!\1.is_empty()"),
+    ("eq1-ge1", r" == 1\b", " >= 1"), ("len-ne-eq", r"\.len\(\) != ", ".len() == "),
+    ("iter-rev", r"\bfor ([a-z_]+) in ([a-z_]+) \{", r"for \1 in \2.iter().rev() {"),
+    ("ok-none", r"return Ok\(None\);", "return Ok(Default::default());"),
+    ("quote-ref-drop", r"quote!\(&#", "quote!(#"), ("quote-refref", r"quote!\(&&", "quote!(&"),
+    ("first-last", r"\.first\(\)", ".last()"), ("next-last", r"\.iter\(\)\.next\(\)", ".iter().last()"),
 ]
 
 def sites():
@@ -71,7 +81,13 @@ def main():
     n = int(sys.argv[1]) if len(sys.argv) > 1 else 120
     seed = int(sys.argv[2]) if len(sys.argv) > 2 else 1
     WORKERS = int(sys.argv[3]) if len(sys.argv) > 3 else 3
-    s = sites(); random.Random(seed).shuffle(s)
+    s = sites()
+    import glob
+    done = set()
+    for f in glob.glob(os.path.join(V, "selftest", "sweep_seed*.json")):
+        for r in json.load(open(f)): done.add((r["file"], r["op"], r["line"]))
+    s = [x for x in s if (x[0], x[1], x[5]) not in done]
+    random.Random(seed).shuffle(s)
     # stratify: at most n/len(OPS)*3 per operator
     cap = max(2, n * 3 // len(OPS)); cnt = {}; pick = []
     for x in s:
